@@ -20,6 +20,32 @@ def vb_bytes(rep):
     return out
 
 
+
+def relativize(rng, rows, p=0.5):
+    """rows: list of (arcs, valueTLV). Returns the same rows with some names (never the first) written as
+    RELATIVE-OID elements (tag 0x0d): the last k arcs of the *previous resolved name of that reply* are replaced by
+    the k arcs given; legal when both names have the same number of arcs and at least three leading arcs are kept.
+    The denoted names are unchanged: a client must deliver exactly the same OIDs as for absolute names."""
+    out = []
+    prev = None
+    for name, val in rows:
+        enc = name
+        if (prev is not None and not isinstance(name, bytes) and len(name) == len(prev) and len(name) > 3
+                and rng.random() < p):
+            common = 0
+            while common < len(name) and name[common] == prev[common]:
+                common += 1
+            kmin = max(1, len(name) - common)
+            kmax = len(name) - 3
+            if kmin <= kmax:
+                k = rng.randrange(kmin, kmax + 1)
+                enc = ber.tlv(0x0d, b"".join(ber.base128(a) for a in name[len(name) - k:]))
+        out.append((enc, val))
+        if not isinstance(name, bytes):
+            prev = tuple(name)
+    return out
+
+
 class Outcome:
     def __init__(self):
         self.yields = []       # (dotted oid, python value)
